@@ -6,7 +6,7 @@ from seed_table import rows
 R = rows()
 final = json.load(open('/verif/seeded/FINAL_RERUN.json'))
 metas = {os.path.basename(d.rstrip('/')): json.load(open(d + 'meta.json')) for d in sorted(glob.glob('/verif/seeded/*/')) if os.path.exists(d + 'meta.json')}
-def rnd(ID): return 1 if len(ID) == 3 else {'b': 2, 'c': 3, 'd': 3, 'e': 4, 'f': 4, 'g': 5, 'h': 5, 'i': 6, 'j': 6, 'k': 7, 'l': 7}[ID[3]]
+def rnd(ID): return 1 if len(ID) == 3 else {'b': 2, 'c': 3, 'd': 3, 'e': 4, 'f': 4, 'g': 5, 'h': 5, 'i': 6, 'j': 6, 'k': 7, 'l': 7, 'm': 8}[ID[3]]
 per_round = {}
 for ID, m in metas.items():
     r = rnd(ID)
@@ -27,7 +27,7 @@ sec = f'''## 8. Seeded changes (detection evidence)
 Realistic property-breaking changes were produced by **fresh sub-agents**, each given only the text of
 one property (title, statement, anchors) and its own scratch git worktree of /repo (nothing from /verif),
 and asked for a change that still compiles, passes the 63 existing tests, needs something specific to
-manifest, and comes with a demonstration test.  Seven rounds: 18 changes; 18 with a different emphasis per
+manifest, and comes with a demonstration test.  Eight rounds: 18 changes; 18 with a different emphasis per
 property (other sites, "two cooperating conditions", multi-step sequences); 18 agents x 2 changes (A: spread
 over two sites that each look fine alone; B: needs a multi-step sequence or a value class no sampling
 generator reaches); and again 18 x 2 with the brief "the obvious mutations near the anchors are taken: find
@@ -47,7 +47,11 @@ sub-agents in general terms (exhaustive small cases, boundary substitutions, a f
 inputs) and asked for changes that such a tool is likely to MISS because they need LENGTH (a history or table
 long in a specific way: the 5462nd entry, more than 255 or 65535 samples in a chunk, the 33rd fragment) or
 COORDINATION (three or more fields changed together consistently); 5 of its 18 were caught at the first
-attempt — the expected weak spot of bounded exhaustive checking, see §5.  Each change was **re-confirmed by `bin/try_seeded.sh`** in a fresh scratch worktree (demo
+attempt — the expected weak spot of bounded exhaustive checking, see §5.  An eighth, small round (one change for each of
+the 8 properties with the fewest seeds: C02 C04 C06 C08 C10 C12 C14 C18; ids `…m`) repeated the plain brief and advised
+aiming at the region an obvious harness is least likely to exercise (rare box types, rarely used entry points, unusual
+combinations, large values, second-and-later calls, error paths); its first-attempt column was measured with the
+harness as committed at 3057367, before any extension.  Each change was **re-confirmed by `bin/try_seeded.sh`** in a fresh scratch worktree (demo
 passes without the patch, fails with it; the existing suite passes with it: 65 = 59 + 4 + 2 tests), stored as
 `seeded/<id>/{{patch.diff, demo.rs, notes.md, meta.json}}`, applied to /repo (`git apply`), run against the
 quick tier of the relevant checks, and undone (`git checkout -- .`).  None is committed in /repo.  (Round 1
@@ -63,7 +67,7 @@ kept as `patch.orig.diff`.)
 of all of them against the harness and the /repo tree as committed (`bin/rerun_seeded.sh`).  Those that are
 not ({', '.join(obsolete)}) are not (or no longer) valid defects with respect to any property (stopped being reachable or applicable
 after a repair of the pinned tree, or changes a value that is not representable): see their entries below.  First-attempt detection per round
-(by the check of their own property, before any strengthening): ''' + ', '.join(f"round {r}: {v[1]} of {v[0]}" for r, v in sorted(per_round.items())) + f''' — {first} of {total} in all.  Rounds 3 to 7 were briefed to
+(by the check of their own property, before any strengthening): ''' + ', '.join(f"round {r}: {v[1]} of {v[0]}" for r, v in sorted(per_round.items())) + f''' — {first} of {total} in all.  Rounds 3 to 8 were briefed to
 produce exactly what the machinery of the earlier rounds would plausibly miss, so their lower rate is the
 point of the exercise.  The {strengthened} marked *yes* were missed by the check of their own property as it
 stood (some were caught by a neighbour; C15 hit a harness build failure); `meta.json` keeps the earlier
